@@ -4,7 +4,7 @@ from hypothesis import strategies as st
 from scipy.constants import h as H_PLANCK, c as C_LIGHT
 
 from ..core import check, lib, raises, Guard
-from ..lib import reset, gv, D, electrical_signal, optical_signal
+from ..lib import reset, shadow_gv, gv, D, electrical_signal, optical_signal
 from ..runner import Part
 from ..sigs import s_signal, s_gv, apply_gv, build, contract
 
@@ -34,6 +34,8 @@ def strip(x):
 def e_det(c):
     reset()
     sps, R, fs = apply_gv(c["gv"])
+    if c["seed"] % 3 == 0 and not c["gv"]["form"].endswith("_nc") and c["gv"]["form"] != "default":
+        shadow_gv()              # user attributes named BW, G, NF ... sit in gv: EDFA(x, G, NF) must not pick them up
     x, m = build(c["x"])
     if m.n is not None and c["x"].get("nscale", 1.0) != 1.0:
         from ..sigs import Model
@@ -93,6 +95,20 @@ def e_det(c):
             check(abs(k.imag) <= 1e-9 * abs(k) and abs(k.real / want_k - 1) <= 1e-9, "ase-scale!=sqrt(NF*h*f0*(G-1)*fs/4)",
                   f"G={G:.3f} dB NF={NF:.3f} dB fs={fs:.4g} f0={f0:.6g}: ASE = {k.real:.9e} * unit Gaussians, expected {want_k:.9e} (ratio {k.real / want_k:.9f})")
             exact = "ase-scale-exact"
+    # a second stage fed with the first stage's output (whose signal keeps the input's real/complex type while its noise is complex):
+    # the incoming noise - both quadratures - is amplified like the signal
+    G2 = 3.0 + (c["seed"] % 7)
+    g2 = 10 ** (G2 / 10)
+    np.random.seed(c["seed"] ^ 0x77)
+    C2 = lib(D.EDFA, A, G2, NF)
+    np.random.seed(c["seed"] ^ 0x77)
+    B2 = lib(D.EDFA, strip(A), G2, NF)
+    amp2 = C2.noise - B2.noise
+    n2s = max(float(np.max(np.abs(A.noise))) * np.sqrt(g2), float(np.max(np.abs(B2.noise))), 1e-300)
+    check(np.allclose(amp2, np.sqrt(g2) * A.noise, rtol=1e-9, atol=1e-9 * n2s), "edfa-input-noise-not-amplified-by-sqrt(G)",
+          f"second stage (G={G2} dB) on the output of the first (signal dtype {A.signal.dtype}, noise dtype {A.noise.dtype}): "
+          f"max err {np.max(np.abs(amp2 - np.sqrt(g2) * A.noise)):.3e} of {n2s:.3e}")
+    check(np.allclose(C2.signal, np.sqrt(g2) * A.signal, rtol=1e-12, atol=1e-12 * scale * np.sqrt(g2)), "edfa-signal!=sqrt(G)*input", "second stage")
     # fresh ASE on every call
     if G > 0.5:
         A2 = lib(D.EDFA, x, G, NF)
